@@ -58,10 +58,12 @@ def greedy_size(a, b, edges):
     return len(used_u)
 
 
-def judge(a, b, edges, optimum=None):
-    """Returns (optimum, nontrivial). Raises Violation."""
+def judge(a, b, edges, optimum=None, given=None):
+    """Returns (optimum, nontrivial). Raises Violation. `given` is the edge collection as handed to the library (container / index
+    type variants of `edges`); the oracle works on the plain list of tuples."""
     eset = set(edges)
-    g = BipartiteGraph(a, b, edges)
+    given = edges if given is None else given
+    g = BipartiteGraph(a, b, given)
     matching = HopcroftKarp(g)()
     mu = [u for u, _ in matching]; mv = [v for _, v in matching]
     require(all((u, v) in eset for (u, v) in matching), 'matching contains a non-edge', a=a, b=b, edges=edges, matching=matching)
@@ -82,7 +84,7 @@ def judge(a, b, edges, optimum=None):
                 a=a, b=b, edges=edges, first=len(m1), second=len(m2), optimum=optimum)
         require(all((u, v) in eset for (u, v) in m2) and len({u for u, _ in m2}) == len(m2) and len({v for _, v in m2}) == len(m2),
                 'repeated call returns an invalid matching', a=a, b=b, edges=edges, matching=m2)
-    g2 = BipartiteGraph(a, b, edges)
+    g2 = BipartiteGraph(a, b, given)
     uc, vc = minimum_vertex_cover(g2)
     require(all(0 <= u < a for u in uc) and all(0 <= v < b for v in vc), 'cover vertex out of range', uc=uc, vc=vc)
     require(len(set(uc)) == len(uc) and len(set(vc)) == len(vc), 'cover lists a vertex twice', uc=uc, vc=vc)
@@ -188,7 +190,19 @@ def check_generated(case, rec):
         T = {'int64': np.int64, 'int32': np.int32, 'intp': np.intp, 'uint16': np.uint16}[case['itype']]
         edges = [(T(u), T(v)) for (u, v) in edges]
         rec.label('index_type_' + case['itype'])
-    opt, nontriv = judge(a, b, edges)
+    # the edge collection in the Sequence forms the constructor documents (`edges: Sequence[tuple[int, int]]`): list of tuples,
+    # tuple of tuples, list of lists, (E, 2) integer array. One-shot iterators are not Sequences and are not part of the domain.
+    cform = case['seed'] % 4
+    given = edges
+    if cform == 1:
+        given = tuple(edges)
+    elif cform == 2:
+        given = [list(e) for e in edges]
+    elif cform == 3 and len(edges) > 0 and not case.get('itype'):
+        given = np.array(edges, dtype=int).reshape(-1, 2)
+    if cform:
+        rec.label('edge_container_%d' % cform)
+    opt, nontriv = judge(a, b, [(int(u), int(v)) for (u, v) in edges], given=given)
     rec.label('family_' + case['kind'])
     if len(set(edges)) < len(edges):
         rec.label('duplicate_edges')
